@@ -175,10 +175,31 @@ def main() -> int:
     props = [json.loads(l) for l in (V / "properties.jsonl").read_text().splitlines() if l.strip()]
     checks = []
     na = []
+    import ast as _ast
+
+    def level_text(pid: str) -> str | None:
+        """the LEVEL constant of the property's rule module (what the check itself says it decides), read without importing it"""
+        f = V / "sa" / "rules" / f"{pid.lower()}.py"
+        if not f.exists():
+            return None
+        for n in _ast.parse(f.read_text()).body:
+            if isinstance(n, _ast.Assign) and any(isinstance(t, _ast.Name) and t.id == "LEVEL" for t in n.targets):
+                try:
+                    return _ast.literal_eval(n.value)
+                except Exception:  # noqa: BLE001
+                    return None
+        return None
+
     for p in props:
         pid = p["id"]
         if pid in CLAIMED:
-            c = CLAIMED[pid]
+            c = dict(CLAIMED[pid])
+            lt = level_text(pid)
+            if lt:
+                # the text is what the rule module states (kept next to the rules so that it cannot drift); instance counts are in the
+                # evidence file of each run, the rules as implemented in DESIGN.md section 9
+                c["text"] = lt[0].upper() + lt[1:] + " Genuine defects of the pinned tree are listed per construct in known_findings.json."
+                c["ref"] = c["ref"] + " and §9"
             checks.append({
                 "property_id": pid,
                 "quick_cmd": f"./check {pid} --tier quick",
